@@ -78,6 +78,11 @@ def run(tier):
     if res.violated:
         raise MachineryError("Classifier.tla design model violates %s" % res.violated)
     run.add_model(res, "Classifier_mc (dispatch)")
+    for cfg in ("Region_mc.cfg", "Region_mc2d.cfg"):
+        rr = tlc.run("Region.tla", cfg)
+        if rr.violated:
+            raise MachineryError("Region.tla design model violates %s (%s)" % (rr.violated, cfg))
+        run.add_model(rr, "%s: breadth-first region tracking on ideal slabs / tori (Complete, NoOverride, WindingExact, WindingRankExact)" % cfg)
     jobs = [(dsc, s) for dsc in descriptors(tier) for s in ([0] if tier == "quick" else [0, 1])]
     recs = pmap(execute, jobs, chunksize=1)
     keep, skipped = [], {}
@@ -96,6 +101,7 @@ def run(tier):
         raise MachineryError("TraceClassifier consumed %d of %d records" % (tres.distinct // 2, len(keep)))
     run.add_model(tres, "TraceClassifier(C18): %d classifications" % len(keep))
     run.traces(len(keep))
+    clsrun.region_layer(run, keep, d, lambda r: 2)
     for tid, clause in tres.printed("FAIL"):
         r = keep[tid - 1]
         dsc = r["desc"]
